@@ -1,5 +1,6 @@
 import SaModel.Lemmas.C04Schema
 import SaModel.Lemmas.C01CompSmall
+import SaModel.Lemmas.C04Scope
 /-
 C04, acceptance half ("the schema traced from the type accepts every value of that type"): the schema-level facts the
 completeness theorem of C01 (`Props/C01Complete.lean`) asks for, for traced schemas of the fragment.
@@ -20,8 +21,40 @@ theorem total_prim (o : TraceOpts) (p : Prim) (n : Bool) (md : Metadata) :
   | _ => simp [primDT, total, defOK]
 
 mutual
+/-- an enum-free type is `sized` (no enum to bound): the old hypothesis of `mapping_total` implies the new one -/
+theorem noEnum_sized : ∀ (t : Ty), noEnum t = true → sized t = true
+  | .prim _, _ | .unit, _ | .unitStruct _, _ => by simp [sized]
+  | .option t, h | .newtype _ t, h | .vec t, h => by
+    simp only [noEnum] at h; simpa [sized] using noEnum_sized t h
+  | .map k v, h => by
+    simp only [noEnum, Bool.and_eq_true] at h
+    simp [sized, noEnum_sized k h.1, noEnum_sized v h.2]
+  | .struct _ fs, h => by
+    simp only [noEnum] at h
+    simpa [sized] using noEnumFields_sized fs h
+  | .tuple ts, h | .tupleStruct _ ts, h => by
+    simp only [noEnum] at h
+    simpa [sized] using noEnumTys_sized ts h
+  | .enum _ _, h => by simp [noEnum] at h
+theorem noEnumTys_sized : ∀ (ts : Tys), noEnumTys ts = true → sizedTys ts = true
+  | .nil, _ => by simp [sizedTys]
+  | .cons t r, h => by
+    simp only [noEnumTys, Bool.and_eq_true] at h
+    simp [sizedTys, noEnum_sized t h.1, noEnumTys_sized r h.2]
+theorem noEnumFields_sized : ∀ (fs : TFields), noEnumFields fs = true → sizedFields fs = true
+  | .nil, _ => by simp [sizedFields]
+  | .cons _ _ t r, h => by
+    simp only [noEnumFields, Bool.and_eq_true] at h
+    simp [sizedFields, noEnum_sized t h.1, noEnumFields_sized r h.2]
+end
+
+theorem total_strDT (o : TraceOpts) (n : Bool) (md : Metadata) :
+    total (.dictionary .uint32 (strDT o)) n md = true ∧ defOK (.dictionary .uint32 (strDT o)) md = true := by
+  simp [total, defOK]
+
+mutual
 theorem mapping_total (o : TraceOpts) : ∀ (t : Ty) (dt : DataType) (nb : Bool) (md : Metadata),
-    noEnum t = true → mappingDT o t = (dt, nb, md) → (∀ n, total dt n md = true) ∧ defOK dt md = true
+    sized t = true → mappingDT o t = (dt, nb, md) → (∀ n, total dt n md = true) ∧ defOK dt md = true
   | .prim p, dt, nb, md, _, hm => by
     simp only [mappingDT, Prod.mk.injEq] at hm; obtain ⟨rfl, rfl, rfl⟩ := hm
     exact ⟨fun n => (total_prim o p n []).1, (total_prim o p false []).2⟩
@@ -34,54 +67,93 @@ theorem mapping_total (o : TraceOpts) : ∀ (t : Ty) (dt : DataType) (nb : Bool)
   | .option t, dt, nb, md, hn, hm => by
     rcases hm' : mappingDT o t with ⟨dt', nb', md'⟩
     simp only [mappingDT, hm', Prod.mk.injEq] at hm; obtain ⟨rfl, rfl, rfl⟩ := hm
-    exact mapping_total o t _ _ _ (by simpa [noEnum] using hn) hm'
+    exact mapping_total o t _ _ _ (by simpa [sized] using hn) hm'
   | .newtype _ t, dt, nb, md, hn, hm => by
     simp only [mappingDT] at hm
-    exact mapping_total o t _ _ _ (by simpa [noEnum] using hn) hm
+    exact mapping_total o t _ _ _ (by simpa [sized] using hn) hm
   | .vec t, dt, nb, md, hn, hm => by
     rcases hm' : mappingDT o t with ⟨dt', nb', md'⟩
     simp only [mappingDT, hm', Prod.mk.injEq] at hm; obtain ⟨rfl, rfl, rfl⟩ := hm
-    have ih := mapping_total o t _ _ _ (by simpa [noEnum] using hn) hm'
+    have ih := mapping_total o t _ _ _ (by simpa [sized] using hn) hm'
     split <;> simp [total, totalF, defOK, ih.1]
   | .tuple ts, dt, nb, md, hn, hm => by
     simp only [mappingDT, Prod.mk.injEq] at hm; obtain ⟨rfl, rfl, rfl⟩ := hm
-    have ih := mappingPos_total o ts 0 (by simpa [noEnum] using hn)
+    have ih := mappingPos_total o ts 0 (by simpa [sized] using hn)
     simp [total, defOK, ih.1, ih.2]
   | .tupleStruct _ ts, dt, nb, md, hn, hm => by
     simp only [mappingDT, Prod.mk.injEq] at hm; obtain ⟨rfl, rfl, rfl⟩ := hm
-    have ih := mappingPos_total o ts 0 (by simpa [noEnum] using hn)
+    have ih := mappingPos_total o ts 0 (by simpa [sized] using hn)
     simp [total, defOK, ih.1, ih.2]
   | .struct _ fs, dt, nb, md, hn, hm => by
     simp only [mappingDT, Prod.mk.injEq] at hm; obtain ⟨rfl, rfl, rfl⟩ := hm
-    have ih := mappingFields_total o fs (by simpa [noEnum] using hn)
+    have ih := mappingFields_total o fs (by simpa [sized] using hn)
     simp [total, defOK, ih.1, ih.2]
   | .map k v, dt, nb, md, hn, hm => by
     rcases hk : mappingDT o k with ⟨kdt, knb, kmd⟩
     rcases hv : mappingDT o v with ⟨vdt, vnb, vmd⟩
     simp only [mappingDT, hk, hv, Prod.mk.injEq] at hm; obtain ⟨rfl, rfl, rfl⟩ := hm
-    simp only [noEnum, Bool.and_eq_true] at hn
+    simp only [sized, Bool.and_eq_true] at hn
     have ihk := mapping_total o k _ _ _ hn.1 hk
     have ihv := mapping_total o v _ _ _ hn.2 hv
     simp [total, totalF, defOK, ihk.1, ihv.1]
-  | .enum _ _, _, _, _, hn, _ => by simp [noEnum] at hn
-theorem mappingPos_total (o : TraceOpts) : ∀ (ts : Tys) (i : Nat), noEnumTys ts = true →
+  | .enum _ vars, dt, nb, md, hn, hm => by
+    simp only [sized, Bool.and_eq_true, decide_eq_true_eq] at hn
+    simp only [mappingDT] at hm
+    split at hm
+    · simp only [Prod.mk.injEq] at hm; obtain ⟨rfl, rfl, rfl⟩ := hm
+      exact ⟨fun n => (total_strDT o n []).1, (total_strDT o false []).2⟩
+    · simp only [Prod.mk.injEq] at hm; obtain ⟨rfl, rfl, rfl⟩ := hm
+      obtain ⟨ht, hl, hd⟩ := mappingVariants_total o vars 0 hn.2
+      simp [total, defOK, ht, hl, hn.1.2, hd hn.1.1]
+theorem mappingPos_total (o : TraceOpts) : ∀ (ts : Tys) (i : Nat), sizedTys ts = true →
     totalFs (mappingPos o i ts) = true ∧ defOKFs (mappingPos o i ts) = true
   | .nil, _, _ => by simp [mappingPos, totalFs, defOKFs]
   | .cons t r, i, hn => by
-    simp only [noEnumTys, Bool.and_eq_true] at hn
+    simp only [sizedTys, Bool.and_eq_true] at hn
     rcases hm : mappingDT o t with ⟨dt, nb, md⟩
     have h1 := mapping_total o t _ _ _ hn.1 hm
     have h2 := mappingPos_total o r (i + 1) hn.2
     simp [mappingPos, hm, totalFs, totalF, defOKFs, defOKF, h1.1, h1.2, h2.1, h2.2]
-theorem mappingFields_total (o : TraceOpts) : ∀ (fs : TFields), noEnumFields fs = true →
+theorem mappingFields_total (o : TraceOpts) : ∀ (fs : TFields), sizedFields fs = true →
     totalFs (mappingFields o fs) = true ∧ defOKFs (mappingFields o fs) = true
   | .nil, _ => by simp [mappingFields, totalFs, defOKFs]
   | .cons n s t r, hn => by
-    simp only [noEnumFields, Bool.and_eq_true] at hn
+    simp only [sizedFields, Bool.and_eq_true] at hn
     rcases hm : mappingDT o t with ⟨dt, nb, md⟩
     have h1 := mapping_total o t _ _ _ hn.1 hm
     have h2 := mappingFields_total o r hn.2
     simp [mappingFields, hm, totalFs, totalF, defOKFs, defOKF, h1.1, h1.2, h2.1, h2.2]
+/-- the children of the Union an enum is traced to: every child is `total`, there are as many children as variants, and
+`serialize_default` goes through the FIRST child (no child is an `UnknownVariant` placeholder), which supports it -/
+theorem mappingVariants_total (o : TraceOpts) : ∀ (vars : Variants) (i : Nat), sizedVariants vars = true →
+    totalUs (mappingVariants o i vars) = true ∧ UFields.length (mappingVariants o i vars) = vars.length ∧
+      (1 ≤ vars.length → defOKFirst (mappingVariants o i vars) = true)
+  | .nil, _, _ => by simp [mappingVariants, totalUs, UFields.length, Variants.length]
+  | .cons vn .unit r, i, hn => by
+    simp only [sizedVariants, sizedVariant, Bool.and_eq_true] at hn
+    obtain ⟨h2, hl, _⟩ := mappingVariants_total o r (i + 1) hn.2
+    simp [mappingVariants, totalUs, totalF, total, UFields.length, Variants.length, defOKFirst, isPlaceholderF, defOKF,
+      defOK, isUnknownVariant_nil, h2, hl]
+  | .cons vn (.newtype t) r, i, hn => by
+    simp only [sizedVariants, sizedVariant, Bool.and_eq_true] at hn
+    rcases hm : mappingDT o t with ⟨dt, nb, md⟩
+    have h1 := mapping_total o t _ _ _ hn.1 hm
+    have hu := unknown_mapping o t _ _ _ hm
+    obtain ⟨h2, hl, _⟩ := mappingVariants_total o r (i + 1) hn.2
+    simp [mappingVariants, hm, totalUs, totalF, UFields.length, Variants.length, defOKFirst, isPlaceholderF, defOKF,
+      hu, h1.1, h1.2, h2, hl]
+  | .cons vn (.tuple ts) r, i, hn => by
+    simp only [sizedVariants, sizedVariant, Bool.and_eq_true] at hn
+    have h1 := mappingPos_total o ts 0 hn.1
+    obtain ⟨h2, hl, _⟩ := mappingVariants_total o r (i + 1) hn.2
+    simp [mappingVariants, totalUs, totalF, total, UFields.length, Variants.length, defOKFirst, isPlaceholderF, defOKF,
+      defOK, isUnknownVariant_struct, h1.1, h1.2, h2, hl]
+  | .cons vn (.struct fs) r, i, hn => by
+    simp only [sizedVariants, sizedVariant, Bool.and_eq_true] at hn
+    have h1 := mappingFields_total o fs hn.1
+    obtain ⟨h2, hl, _⟩ := mappingVariants_total o r (i + 1) hn.2
+    simp [mappingVariants, totalUs, totalF, total, UFields.length, Variants.length, defOKFirst, isPlaceholderF, defOKF,
+      defOK, isUnknownVariant_struct, h1.1, h1.2, h2, hl]
 end
 
 /-! ### `build_builder` accepts a traced schema; the fresh builder has the full head room -/
@@ -112,9 +184,21 @@ theorem mkStruct_ok (path : String) (bl : BL) (nl : Bool) (hd : hasDup bl.names 
     by simp [mkStruct, hd], ?_⟩
   exact ⟨by simpa [used] using hr.1, by simpa [keysRoom] using hr.2⟩
 
+theorem newDT_strDict (o : TraceOpts) (path : String) (nl : Bool) (md : Metadata) :
+    ∃ b, newDT path (.dictionary .uint32 (strDT o)) nl md = .ok b ∧ FullRoom b := by
+  simp only [strDT]
+  by_cases hl : o.stringsAsLargeUtf8 = true <;> simp only [hl, if_true, if_false, Bool.false_eq_true]
+  · exact ⟨_, rfl, rfl, by simp [keysRoom, keyRoom, IntTy.max, LIM]⟩
+  · exact ⟨_, rfl, rfl, by simp [keysRoom, keyRoom, IntTy.max, LIM]⟩
+
+/-- `UnionBuilder::new`: the fresh Union builder over fresh children has the full head room -/
+theorem mkUnion_full (path : String) (bl : BL) (hr : FullRoomL bl) :
+    FullRoom (.union path bl [] [] (List.replicate bl.length 0)) :=
+  ⟨by simpa [used] using hr.1, by simpa [keysRoom] using hr.2⟩
+
 mutual
 theorem newDT_traced (o : TraceOpts) : ∀ (t : Ty) (dt : DataType) (nb : Bool) (md : Metadata),
-    frag t = true → mappingDT o t = (dt, nb, md) → ∀ (path : String) (nl : Bool), ∃ b, newDT path dt nl md = .ok b ∧ FullRoom b
+    fragE t = true → mappingDT o t = (dt, nb, md) → ∀ (path : String) (nl : Bool), ∃ b, newDT path dt nl md = .ok b ∧ FullRoom b
   | .prim p, dt, nb, md, _, hm, path, nl => by
     simp only [mappingDT, Prod.mk.injEq] at hm; obtain ⟨rfl, rfl, rfl⟩ := hm; exact newDT_prim o p path nl []
   | .unit, dt, nb, md, _, hm, path, nl => by
@@ -126,14 +210,14 @@ theorem newDT_traced (o : TraceOpts) : ∀ (t : Ty) (dt : DataType) (nb : Bool) 
   | .option t, dt, nb, md, hf, hm, path, nl => by
     rcases hm' : mappingDT o t with ⟨dt', nb', md'⟩
     simp only [mappingDT, hm', Prod.mk.injEq] at hm; obtain ⟨rfl, rfl, rfl⟩ := hm
-    exact newDT_traced o t _ _ _ (by simpa [frag] using hf) hm' path nl
+    exact newDT_traced o t _ _ _ (by simpa [fragE] using hf) hm' path nl
   | .newtype _ t, dt, nb, md, hf, hm, path, nl => by
     simp only [mappingDT] at hm
-    exact newDT_traced o t _ _ _ (by simpa [frag] using hf) hm path nl
+    exact newDT_traced o t _ _ _ (by simpa [fragE] using hf) hm path nl
   | .vec t, dt, nb, md, hf, hm, path, nl => by
     rcases hm' : mappingDT o t with ⟨dt', nb', md'⟩
     simp only [mappingDT, hm', Prod.mk.injEq] at hm; obtain ⟨rfl, rfl, rfl⟩ := hm
-    obtain ⟨el, hel, hu, hk⟩ := newDT_traced o t _ _ _ (by simpa [frag] using hf) hm' (path ++ "." ++ childName "element") nb'
+    obtain ⟨el, hel, hu, hk⟩ := newDT_traced o t _ _ _ (by simpa [fragE] using hf) hm' (path ++ "." ++ childName "element") nb'
     by_cases hl : o.sequenceAsLargeList = true
     · refine ⟨_, by simp only [hl, if_true, newDT, newB, Field.name, hel, bind, Except.bind, pure, Except.pure]; rfl, ?_, ?_⟩
       · simp [used, lastNat_zero, hu]
@@ -143,17 +227,17 @@ theorem newDT_traced (o : TraceOpts) : ∀ (t : Ty) (dt : DataType) (nb : Bool) 
       · simp [keysRoom, hk]
   | .tuple ts, dt, nb, md, hf, hm, path, nl => by
     simp only [mappingDT, Prod.mk.injEq] at hm; obtain ⟨rfl, rfl, rfl⟩ := hm
-    obtain ⟨bl, hbl, hnames, hr⟩ := newPos_traced o ts 0 (by simpa [frag] using hf) path
+    obtain ⟨bl, hbl, hnames, hr⟩ := newPos_traced o ts 0 (by simpa [fragE] using hf) path
     obtain ⟨b, hb, hfr⟩ := mkStruct_ok path bl nl (by rw [hnames]; exact hasDup_posNames _ _) hr
     exact ⟨b, by simp only [newDT, hbl, bind, Except.bind]; exact hb, hfr⟩
   | .tupleStruct _ ts, dt, nb, md, hf, hm, path, nl => by
     simp only [mappingDT, Prod.mk.injEq] at hm; obtain ⟨rfl, rfl, rfl⟩ := hm
-    obtain ⟨bl, hbl, hnames, hr⟩ := newPos_traced o ts 0 (by simpa [frag] using hf) path
+    obtain ⟨bl, hbl, hnames, hr⟩ := newPos_traced o ts 0 (by simpa [fragE] using hf) path
     obtain ⟨b, hb, hfr⟩ := mkStruct_ok path bl nl (by rw [hnames]; exact hasDup_posNames _ _) hr
     exact ⟨b, by simp only [newDT, hbl, bind, Except.bind]; exact hb, hfr⟩
   | .struct _ fs, dt, nb, md, hf, hm, path, nl => by
     simp only [mappingDT, Prod.mk.injEq] at hm; obtain ⟨rfl, rfl, rfl⟩ := hm
-    simp only [frag, Bool.and_eq_true, Bool.not_eq_true'] at hf
+    simp only [fragE, Bool.and_eq_true, Bool.not_eq_true'] at hf
     obtain ⟨bl, hbl, hnames, hr⟩ := newFields_traced o fs hf.2 path
     obtain ⟨b, hb, hfr⟩ := mkStruct_ok path bl nl (by rw [hnames]; exact hf.1) hr
     exact ⟨b, by simp only [newDT, hbl, bind, Except.bind]; exact hb, hfr⟩
@@ -161,18 +245,26 @@ theorem newDT_traced (o : TraceOpts) : ∀ (t : Ty) (dt : DataType) (nb : Bool) 
     rcases hk : mappingDT o k with ⟨kdt, knb, kmd⟩
     rcases hv : mappingDT o v with ⟨vdt, vnb, vmd⟩
     simp only [mappingDT, hk, hv, Prod.mk.injEq] at hm; obtain ⟨rfl, rfl, rfl⟩ := hm
-    simp only [frag, Bool.and_eq_true] at hf
+    simp only [fragE, Bool.and_eq_true] at hf
     obtain ⟨kb, hkb, hku, hkk⟩ := newDT_traced o k _ _ _ hf.1 hk (path ++ "." ++ childName "entries" ++ "." ++ childName "key") knb
     obtain ⟨vb, hvb, hvu, hvk⟩ := newDT_traced o v _ _ _ hf.2 hv (path ++ "." ++ childName "entries" ++ "." ++ childName "value") vnb
     refine ⟨_, by simp only [newDT, newB, Field.name, hkb, hvb, bind, Except.bind, pure, Except.pure]; rfl, ?_, ?_⟩
     · simp [used, lastNat_zero, hku, hvu]
     · simp [keysRoom, hkk, hvk]
-  | .enum _ _, _, _, _, hf, _, _, _ => by simp [frag] at hf
-theorem newPos_traced (o : TraceOpts) : ∀ (ts : Tys) (i : Nat), fragTys ts = true → ∀ (path : String),
+  | .enum _ vars, dt, nb, md, hf, hm, path, nl => by
+    simp only [fragE, Bool.and_eq_true] at hf
+    simp only [mappingDT] at hm
+    split at hm
+    · simp only [Prod.mk.injEq] at hm; obtain ⟨rfl, rfl, rfl⟩ := hm
+      exact newDT_strDict o path nl []
+    · simp only [Prod.mk.injEq] at hm; obtain ⟨rfl, rfl, rfl⟩ := hm
+      obtain ⟨bl, hbl, hr⟩ := newVariants_traced o vars 0 hf.2 path
+      exact ⟨_, by simp only [newDT, hbl, bind, Except.bind, pure, Except.pure], mkUnion_full path bl hr⟩
+theorem newPos_traced (o : TraceOpts) : ∀ (ts : Tys) (i : Nat), fragETys ts = true → ∀ (path : String),
     ∃ bl, newFields path (mappingPos o i ts) = .ok bl ∧ bl.names = posNames i ts.length ∧ FullRoomL bl
   | .nil, _, _, _ => ⟨.nil, rfl, rfl, rfl, rfl⟩
   | .cons t r, i, hf, path => by
-    simp only [fragTys, Bool.and_eq_true] at hf
+    simp only [fragETys, Bool.and_eq_true] at hf
     rcases hm : mappingDT o t with ⟨dt, nb, md⟩
     obtain ⟨b, hb, hu, hk⟩ := newDT_traced o t _ _ _ hf.1 hm (path ++ "." ++ posName i) nb
     obtain ⟨bl, hbl, hnames, hru, hrk⟩ := newPos_traced o r (i + 1) hf.2 path
@@ -180,16 +272,59 @@ theorem newPos_traced (o : TraceOpts) : ∀ (ts : Tys) (i : Nat), fragTys ts = t
     · simp [BL.names, metaOfField, hnames, Tys.length, posNames]
     · simp [usedL, hu, hru]
     · simp [keysRoomL, hk, hrk]
-theorem newFields_traced (o : TraceOpts) : ∀ (fs : TFields), fragFields fs = true → ∀ (path : String),
+theorem newFields_traced (o : TraceOpts) : ∀ (fs : TFields), fragEFields fs = true → ∀ (path : String),
     ∃ bl, newFields path (mappingFields o fs) = .ok bl ∧ bl.names = fs.names ∧ FullRoomL bl
   | .nil, _, _ => ⟨.nil, rfl, rfl, rfl, rfl⟩
   | .cons n s t r, hf, path => by
-    simp only [fragFields, Bool.and_eq_true] at hf
+    simp only [fragEFields, Bool.and_eq_true] at hf
     rcases hm : mappingDT o t with ⟨dt, nb, md⟩
     obtain ⟨b, hb, hu, hk⟩ := newDT_traced o t _ _ _ hf.1.1 hm (path ++ "." ++ n) nb
     obtain ⟨bl, hbl, hnames, hru, hrk⟩ := newFields_traced o r hf.2 path
     refine ⟨_, by simp only [mappingFields, hm, newFields, newB, Field.name, hb, hbl, bind, Except.bind, pure, Except.pure]; rfl, ?_, ?_, ?_⟩
     · simp [BL.names, metaOfField, hnames, TFields.names]
+    · simp [usedL, hu, hru]
+    · simp [keysRoomL, hk, hrk]
+/-- `build_builder` accepts the children of the Union an enum is traced to: the type ids `mappingVariants o i` gives are
+the consecutive numbers from `i`, exactly what `newUnionFields … i` demands -/
+theorem newVariants_traced (o : TraceOpts) : ∀ (vars : Variants) (i : Nat), fragEVariants vars = true → ∀ (path : String),
+    ∃ bl, newUnionFields path (mappingVariants o i vars) i = .ok bl ∧ FullRoomL bl
+  | .nil, _, _, _ => ⟨.nil, rfl, rfl, rfl⟩
+  | .cons vn .unit r, i, hf, path => by
+    simp only [fragEVariants, fragEVariant, Bool.and_eq_true] at hf
+    obtain ⟨bl, hbl, hru, hrk⟩ := newVariants_traced o r (i + 1) hf.2 path
+    refine ⟨.cons (.null (path ++ "." ++ childName vn) 0) _ bl, by
+      simp only [mappingVariants, newUnionFields, newB, newDT, strategyOf_nil, Field.name, hbl, bind, Except.bind, pure,
+        Except.pure, bne_self_eq_false, Bool.false_eq_true, if_false]; rfl, ?_, ?_⟩
+    · simp [usedL, used, hru]
+    · simp [keysRoomL, keysRoom, hrk]
+  | .cons vn (.newtype t) r, i, hf, path => by
+    simp only [fragEVariants, fragEVariant, Bool.and_eq_true] at hf
+    rcases hm : mappingDT o t with ⟨dt, nb, md⟩
+    obtain ⟨b, hb, hu, hk⟩ := newDT_traced o t _ _ _ hf.1 hm (path ++ "." ++ childName vn) nb
+    obtain ⟨bl, hbl, hru, hrk⟩ := newVariants_traced o r (i + 1) hf.2 path
+    refine ⟨.cons b _ bl, by
+      simp only [mappingVariants, hm, newUnionFields, newB, Field.name, hb, hbl, bind, Except.bind, pure,
+        Except.pure, bne_self_eq_false, Bool.false_eq_true, if_false]; rfl, ?_, ?_⟩
+    · simp [usedL, hu, hru]
+    · simp [keysRoomL, hk, hrk]
+  | .cons vn (.tuple ts) r, i, hf, path => by
+    simp only [fragEVariants, fragEVariant, Bool.and_eq_true] at hf
+    obtain ⟨cl, hcl, hnames, hr⟩ := newPos_traced o ts 0 hf.1 (path ++ "." ++ childName vn)
+    obtain ⟨b, hb, hu, hk⟩ := mkStruct_ok (path ++ "." ++ childName vn) cl false (by rw [hnames]; exact hasDup_posNames _ _) hr
+    obtain ⟨bl, hbl, hru, hrk⟩ := newVariants_traced o r (i + 1) hf.2 path
+    refine ⟨.cons b _ bl, by
+      simp only [mappingVariants, newUnionFields, newB, newDT, Field.name, hcl, hb, hbl, bind, Except.bind, pure,
+        Except.pure, bne_self_eq_false, Bool.false_eq_true, if_false]; rfl, ?_, ?_⟩
+    · simp [usedL, hu, hru]
+    · simp [keysRoomL, hk, hrk]
+  | .cons vn (.struct fs) r, i, hf, path => by
+    simp only [fragEVariants, fragEVariant, Bool.and_eq_true, Bool.not_eq_true'] at hf
+    obtain ⟨cl, hcl, hnames, hr⟩ := newFields_traced o fs hf.1.2 (path ++ "." ++ childName vn)
+    obtain ⟨b, hb, hu, hk⟩ := mkStruct_ok (path ++ "." ++ childName vn) cl false (by rw [hnames]; exact hf.1.1) hr
+    obtain ⟨bl, hbl, hru, hrk⟩ := newVariants_traced o r (i + 1) hf.2 path
+    refine ⟨.cons b _ bl, by
+      simp only [mappingVariants, newUnionFields, newB, newDT, Field.name, hcl, hb, hbl, bind, Except.bind, pure,
+        Except.pure, bne_self_eq_false, Bool.false_eq_true, if_false]; rfl, ?_, ?_⟩
     · simp [usedL, hu, hru]
     · simp [keysRoomL, hk, hrk]
 end
@@ -200,9 +335,9 @@ theorem fields_ofList_toList : ∀ (l : Fields), Fields.ofList l.toList = l
 
 /-- **`ArrayBuilder::new` accepts the schema traced from a record type of the fragment**; the fresh root has the full
 head room `2^31 - 1` -/
-theorem newRoot_traced (o : TraceOpts) (n : String) (fs : TFields) (hf : frag (.struct n fs) = true) :
+theorem newRoot_traced (o : TraceOpts) (n : String) (fs : TFields) (hf : fragE (.struct n fs) = true) :
     ∃ root0, newRoot (mappingFields o fs).toList = .ok root0 ∧ room root0 = 2147483647 := by
-  simp only [frag, Bool.and_eq_true, Bool.not_eq_true'] at hf
+  simp only [fragE, Bool.and_eq_true, Bool.not_eq_true'] at hf
   obtain ⟨bl, hbl, hnames, hr⟩ := newFields_traced o fs hf.2 "$"
   obtain ⟨b, hb, hu, hk⟩ := mkStruct_ok "$" bl false (by rw [hnames]; exact hf.1) hr
   refine ⟨b, by simp only [newRoot, fields_ofList_toList, hbl, bind, Except.bind]; exact hb, ?_⟩
